@@ -54,6 +54,7 @@ type OblResult struct {
 	script  string
 	obl     *Obligation
 	res     SolveResult
+	presolved bool
 }
 
 type FnReport struct {
@@ -193,6 +194,30 @@ func RunCheck(cfg *CheckConfig) int {
 			}
 		}
 	}
+	// package-constant obligations (syntactic, on the real source)
+	for _, cc := range eng.cs.Consts {
+		has := false
+		for _, p := range cc.Props {
+			if p == cfg.Property {
+				has = true
+			}
+		}
+		if !has {
+			continue
+		}
+		name, ok, detail := eng.ConstInitCheck(cc)
+		r := &OblResult{Name: name, Kind: "const", Fn: name, Where: cc.Clause.Where, Text: cc.Clause.Text, presolved: true, Solver: "syntactic"}
+		h := sha256.Sum256([]byte(cc.Clause.Text + "|" + detail))
+		r.Hash = fmt.Sprintf("%x", h[:8])
+		if ok {
+			r.Status = "unsat"
+		} else {
+			r.Status = "unknown"
+			r.Text += " — " + detail
+			r.res.Output = detail
+		}
+		results = append(results, r)
+	}
 	// solve
 	work := scratchDir(cfg)
 	var wg sync.WaitGroup
@@ -207,6 +232,9 @@ func RunCheck(cfg *CheckConfig) int {
 		r.Seconds = r.res.Seconds
 	}
 	for _, r := range results {
+		if r.presolved {
+			continue
+		}
 		wg.Add(1)
 		go solveOne(r, timeout, false)
 	}
